@@ -84,6 +84,20 @@ def allF (args : List String) : Option String := do
     some (showRes (allLindblad (← parseV v) (sqOf tape) nm? n (← parseIT it)))
   | _ => none
 
+/-- `noise.pdata variant it n prefer sqtape dpresent <7 model fields> cpresent <7 model fields>` with
+model fields `types relax deph depol hyper effrates effops` (device default model, config model). -/
+def pdataF (args : List String) : Option String := do
+  match args with
+  | [v, it, n, prefer, tape, dp, dt, dr, dd, ddp, dh, der, deo, cp, ct, cr, cd, cdp, ch, cer, ceo] =>
+    let dm ← parseModel dt dr dd ddp dh der deo
+    let cm ← parseModel ct cr cd cdp ch cer ceo
+    let tape ← parseTape tape
+    let n ← n.toNat?
+    let dev := if (← parseB dp) then some dm else none
+    let cfg := if (← parseB cp) then some cm else none
+    some (showRes (pulserDataLindblad (← parseV v) (sqOf tape) (← parseB prefer) dev cfg n (← parseIT it)))
+  | _ => none
+
 /-- `noise.topulser it n` → the index map emulator → Pulser. -/
 def toPulserF (args : List String) : Option String := do
   match args with
@@ -94,6 +108,6 @@ def toPulserF (args : List String) : Option String := do
   | _ => none
 
 def handlers : List (String × (List String → Option String)) :=
-  [("noise.get", getF), ("noise.all", allF), ("noise.topulser", toPulserF)]
+  [("noise.get", getF), ("noise.all", allF), ("noise.pdata", pdataF), ("noise.topulser", toPulserF)]
 
 end EmuVerif.Drv.Noise
